@@ -1360,8 +1360,177 @@ def r17h(ctx):
     ctx.floor(rule, "expressions with duplicate terms", n, 5)
 
 
+# ------------------------------------------------------------------------------- R17i
+
+# the first excitation class (holes, particles) of the five ADC variants; class n has n - 1 further particle-hole pairs
+ADC_VARIANTS = {"pp": (1, 1), "ip": (1, 0), "ea": (0, 1), "dip": (2, 0), "dea": (0, 2)}
+OCC_NAMES, VIRT_NAMES, GEN_NAMES = "ijklmno", "abcdefgh", "pqrs"
+
+
+def amplitude_blocks(max_indices):
+    """[(variant, class number n, holes, particles)]: every block of the amplitude vectors of the five ADC variants with
+    at most ``max_indices`` indices.  The n-th block of the vector of a variant is addressed as u{l|r}{n}."""
+    out = []
+    for variant, (h1, p1) in ADC_VARIANTS.items():
+        n = 1
+        while h1 + p1 + 2 * (n - 1) <= max_indices:
+            out.append((variant, n, h1 + n - 1, p1 + n - 1))
+            n += 1
+    return out
+
+
+def _longname_world(ctx, renamed):
+    from . import c11
+    return c11.TensorWorld(ctx.model, renamed)
+
+
+def _power(tensor, exponent):
+    """tensor**exponent as sympy holds it: a Pow with args (base, exponent)."""
+    from ..symex import Obj as _Obj
+    p = _Obj(None, f"<{tensor.name}**{exponent}>")
+    p.attrs.update(_classes=("Pow",), args=(tensor, exponent), is_number=False)
+    return p
+
+
+def _indices_of(letters, spin=None):
+    from . import c11
+    return tuple(c11.mk_index(ch, None, spin[k] if spin else "") for k, ch in enumerate(letters))
+
+
+def r17i(ctx):
+    """Obj.longname, the operand names of the emitted program, as a decision table: the library's own tensor
+    constructors and Obj.longname / Obj.base / Obj.space / the tensor_names predicates are evaluated on every kind of
+    object; the expected names are stated here independently (block of the amplitude vector by enumeration of the
+    excitation classes of the five ADC variants; t-amplitudes by the number of upper indices and the order; densities
+    by order and block; t2eri; other tensors by block)."""
+    rule = "R17i"
+    from . import c11
+    from ..symex import Obj as _Obj
+    fn = ctx.model.fn("expr_container:Obj.longname")
+    thorough = ctx.tier == "thorough"
+    worlds = [("default names", None, dict(left="X", right="Y", t="t", p="p", eri="V")),
+              ("renamed tensors", {"left_adc_amplitude": "Lv", "right_adc_amplitude": "Rv", "gs_amplitude": "amp",
+                                   "gs_density": "rho", "eri": ERI, "fock": FOCK},
+               dict(left="Lv", right="Rv", t="amp", p="rho", eri=ERI))]
+    n_amp = n_other = 0
+
+    def name_of(w, sympy_obj, default):
+        outs = w.sx.run(fn, lambda: dict(self=w.container(sympy_obj), use_default_names=default))
+        if len(outs) != 1:
+            return f"<{len(outs)} outcomes>"
+        return outs[0].value if outs[0].kind == "return" else f"<raises {outs[0].exc}>"
+
+    def build(w, kind, name, upper, lower, spin=None, bks=0):
+        up = _indices_of(upper, spin[:len(upper)] if spin else None)
+        lo = _indices_of(lower, spin[len(upper):] if spin else None)
+        if kind == "NonSymmetricTensor":
+            return w.construct(kind, name, [up + lo], None)[0]
+        return w.construct(kind, name, [up, lo], bks)[0]
+
+    def block_of(w, tensor):
+        return "".join(x.attrs["space"][0] for x in w.read_idx(tensor))
+
+    def decide(w, tag, what, sympy_obj, want, key, defaults=(False, True)):
+        for default in defaults:
+            exp = want[default] if isinstance(want, dict) else want
+            got = name_of(w, sympy_obj, default)
+            ctx.check(rule, fn, got == exp, f"{tag}: {what} -> {exp}" + (" (default names)" if default else ""),
+                      f"Obj.longname(use_default_names={default}) [{tag}]: {what} is named `{got}` in the generated code, expected `{exp}`",
+                      key=f"{key} {tag} default={default}")
+
+    for tag, renamed, nm_ in worlds:
+        w = _longname_world(ctx, renamed)
+        # ---- ADC amplitude vectors: block number by enumeration of the excitation classes
+        for variant, n, holes, parts in amplitude_blocks(8 if thorough else 6):
+            occ, virt = OCC_NAMES[:holes], VIRT_NAMES[:parts]
+            for side, lr in (("left", "l"), ("right", "r")):
+                for placement, (upper, lower) in (("virt upper", (virt, occ)), ("occ upper", (occ, virt))):
+                    t = build(w, "Amplitude", nm_[side], upper, lower)
+                    n_amp += 1
+                    decide(w, tag, f"{variant}-ADC {side} amplitude, {holes}h{parts}p block ({placement})", t, f"u{lr}{n}",
+                           key=f"amplitude {variant} {holes}h{parts}p {side} {placement}")
+            # squared amplitude, spin labelled amplitude, amplitude held as another tensor class: same operand
+            t = build(w, "Amplitude", nm_["right"], virt, occ)
+            decide(w, tag, f"{variant}-ADC right amplitude squared, {holes}h{parts}p", _power(t, 2), f"ur{n}",
+                   key=f"amplitude {variant} {holes}h{parts}p squared", defaults=(False,))
+            if holes + parts <= 4:
+                t = build(w, "Amplitude", nm_["left"], virt, occ, spin=("ab" * 4)[:holes + parts])
+                decide(w, tag, f"{variant}-ADC left amplitude with spin, {holes}h{parts}p", t, f"ul{n}",
+                       key=f"amplitude {variant} {holes}h{parts}p spin", defaults=(False,))
+                t = build(w, "NonSymmetricTensor", nm_["right"], occ, virt)
+                decide(w, tag, f"{variant}-ADC right amplitude (NonSymmetricTensor), {holes}h{parts}p", t, f"ur{n}",
+                       key=f"amplitude {variant} {holes}h{parts}p nonsym", defaults=(False,))
+        # ---- ground state amplitudes: <base><number of upper indices>[_<order and cc>]
+        base = nm_["t"]
+        for ext in ("", "1", "2", "3", "12", "cc", "1cc", "2cc"):
+            for rank in (1, 2, 3):
+                t = build(w, "Amplitude", base + ext, VIRT_NAMES[:rank], OCC_NAMES[:rank])
+                n_other += 1
+                decide(w, tag, f"t-amplitude {base + ext} of rank {rank}", t,
+                       {False: f"{base}{rank}" + (f"_{ext}" if ext else ""), True: f"t{rank}" + (f"_{ext}" if ext else "")},
+                       key=f"t-amplitude {ext or 'no order'} rank {rank}")
+        for upper, lower in (("a", "ij"), ("ab", "i"), ("", "ij")):
+            t = build(w, "Amplitude", base + "2", upper, lower)
+            n_other += 1
+            decide(w, tag, f"t-amplitude {base}2 with {len(upper)} upper and {len(lower)} lower indices", t, "<raises RuntimeError>",
+                   key=f"t-amplitude unequal {len(upper)}/{len(lower)}")
+        # ---- ground state densities: <base>0[_<order>]_<block>
+        base = nm_["p"]
+        for ext in ("", "1", "2", "12"):
+            for upper, lower in (("i", "j"), ("i", "a"), ("a", "i"), ("a", "b"), ("ij", "ab"), ("p", "q")):
+                t = build(w, "AntiSymmetricTensor", base + ext, upper, lower, bks=1)
+                sp = block_of(w, t)             # the block is read off the tensor's own index order
+                n_other += 1
+                decide(w, tag, f"density {base + ext} block {sp}", t,
+                       {False: f"{base}0_" + (f"{ext}_" if ext else "") + sp, True: "p0_" + (f"{ext}_" if ext else "") + sp},
+                       key=f"density {ext or 'no order'} {sp}")
+        t = build(w, "AntiSymmetricTensor", base + "2", "ij", "a")
+        decide(w, tag, f"density {base}2 with 2 upper and 1 lower index", t, "<raises RuntimeError>", key="density unequal")
+        # ---- t2eri_<n>, t2sq and every other tensor (name and block), look-alike names of the special tensors
+        rows = [("AntiSymmetricTensor", "t2eri3", "ij", "ka", "t2eri_3"), ("AntiSymmetricTensor", "t2eri12", "ij", "ka", "t2eri_12"),
+                ("AntiSymmetricTensor", "t2sq", "ia", "jb", "t2sq"),
+                ("AntiSymmetricTensor", nm_["eri"], "ij", "ab", f"{nm_['eri']}_oovv"), ("AntiSymmetricTensor", nm_["eri"], "ia", "jb", f"{nm_['eri']}_ovov"),
+                ("AntiSymmetricTensor", nm_["eri"], "pq", "rs", f"{nm_['eri']}_gggg"), ("AntiSymmetricTensor", "f", "i", "a", "f_ov"),
+                ("AntiSymmetricTensor", "f", "a", "i", "f_vo"), ("SymmetricTensor", "A", "ij", "ab", "A_oovv"),
+                ("NonSymmetricTensor", "B", "ia", "jp", "B_ovog"), ("NonSymmetricTensor", "B", "i", "", "B_o"),
+                ("AntiSymmetricTensor", "C", "ijk", "abc", "C_ooovvv"),
+                # look-alikes: a name that merely starts with / contains a special name is an ordinary tensor
+                ("Amplitude", nm_["right"] + "2", "a", "ij", f"{nm_['right']}2_voo"), ("Amplitude", "u" + nm_["left"], "a", "i", f"u{nm_['left']}_vo"),
+                ("Amplitude", nm_["t"] + "x", "ab", "ij", f"{nm_['t']}x_vvoo"), ("Amplitude", nm_["t"] + "2x", "a", "i", f"{nm_['t']}2x_vo"),
+                ("AntiSymmetricTensor", nm_["p"] + "x", "i", "a", f"{nm_['p']}x_ov"), ("AntiSymmetricTensor", nm_["p"] + "2cc", "i", "a", f"{nm_['p']}2cc_ov"),
+                ("AntiSymmetricTensor", "xt2eri3", "ij", "ka", "xt2eri3_ooov"), ("AntiSymmetricTensor", "t2sqx", "ia", "jb", "t2sqx_ovov")]
+        if renamed:      # the default literals carry no meaning once the tensors are renamed
+            rows += [("Amplitude", "X", "a", "ij", "X_voo"), ("Amplitude", "Y", "", "ij", "Y_oo"), ("Amplitude", "t2", "ab", "ij", "t2_vvoo"),
+                     ("AntiSymmetricTensor", "p2", "i", "a", "p2_ov"), ("Amplitude", "t1", "a", "ij", "t1_voo")]
+        for kind, name, upper, lower, want in rows:
+            t = build(w, kind, name, upper, lower)
+            # the block string is read off the tensor's own index order
+            sp_built = block_of(w, t)
+            if "_" in want and want.rsplit("_", 1)[1] and set(want.rsplit("_", 1)[1]) <= set("ovg"):
+                want = want.rsplit("_", 1)[0] + "_" + sp_built
+            n_other += 1
+            decide(w, tag, f"{kind} {name}^{upper}_{lower}", t, want, key=f"tensor {kind} {name} {upper}|{lower}")
+        t = build(w, "AntiSymmetricTensor", "f", "i", "a")
+        decide(w, tag, "f_ov cubed", _power(t, 3), "f_ov", key="tensor power", defaults=(False,))
+        # ---- deltas: one name per block (the literal is the interface R17a-R17e assume: d_<block>); symbols: no operand
+        seen = {}
+        for p_, q_ in (("i", "j"), ("a", "b"), ("i", "a"), ("p", "q")):
+            d = _Obj("sympy_objects:KroneckerDelta", f"<delta {p_}{q_}>")
+            d.attrs.update(args=_indices_of(p_ + q_), is_number=False)
+            sp = "".join(c11.space_name(ch)[0] for ch in p_ + q_)
+            n_other += 1
+            decide(w, tag, f"delta_{p_}{q_}", d, f"d_{sp}", key=f"delta {sp}")
+            seen[sp] = name_of(w, d, False)
+        s = _Obj(None, "<Symbol x>")
+        s.attrs.update(_classes=("Symbol",), name="x", is_number=False, args=())
+        decide(w, tag, "a symbol (no operand of a contraction)", s, None, key="symbol")
+    ctx.floor(rule, "amplitude blocks named", n_amp, 80)
+    ctx.floor(rule, "other objects named", n_other, 100)
+
+
 def run(ctx):
-    for r, f in (("R17a", r17a), ("R17b", r17b), ("R17c", r17c), ("R17d", r17d), ("R17e", r17e), ("R17f", r17f), ("R17g", r17g), ("R17h", r17h)):
+    for r, f in (("R17a", r17a), ("R17b", r17b), ("R17c", r17c), ("R17d", r17d), ("R17e", r17e), ("R17f", r17f), ("R17g", r17g), ("R17h", r17h),
+                 ("R17i", r17i)):
         if ctx.want(r):
             f(ctx)
     # the "Apply (1 +- P..) to:" operators come from exploit_perm_sym: its conservation law (R10a/R10b/R10c of C10)
